@@ -7,6 +7,8 @@ CONSTANTS
   LensKind = "mixed"
   WithReload = TRUE
   ReloadBumpsVersion = TRUE
+  WithHideKeep = FALSE
+  Follow = FALSE
   WithScroll = TRUE
   DelayedSetsVersion = FALSE
 SPECIFICATION Spec
